@@ -166,4 +166,9 @@ def evaluate_compile(mset, genTexts=False):
             continue
         for facet, detail in oracle.compare_json(m, docs[name], genTexts, oracle.norm_default):
             mm.append(('compile-json', facet, detail))
+        # the set loads together: every module the output imports from was looked up by this very call
+        for dep, syms in (docs[name].get('imports') or {}).items():
+            if isinstance(syms, list) and syms and dep not in res:
+                mm.append(('compile', 'import-closure', '%s: the output imports %r from %s, which compile() never looked up '
+                           '(statuses: %r)' % (name, syms[:4], dep, sorted(res))))
     return texts, mm
